@@ -32,9 +32,9 @@ def stepC04 (st : DState) (line : String) : DState × String :=
       | some k => ({ st with srv := serverInit (effectiveFilterSize k) }, "ok")
       | none => (st, "bad-op")
   | ["srv", "pkt", now, long, pid, auth, hdr, typ, ts, rest] =>
-      match now.toNat?, b01 long, pid.toNat?, b01 auth, b01 hdr, typ.toNat?, ts.toInt?, b01 rest with
+      match now.toNat?, b01 long, pid.toNat?, b01 auth, b01 hdr, typ.toNat?, ts.toNat?, b01 rest with
       | some now, some long, some pid, some auth, some hdr, some typ, some ts, some rest =>
-        let p : Packet := { long := long, sid := 0, pid := pid, authentic := auth, hdr := hdr, typ := typ, ts := ts, csid := 0, rest := rest }
+        let p : Packet := { long := long, sid := 0, pid := pid, authentic := auth, hdr := hdr, typ := typ, ts := BitVec.ofNat 64 ts, csid := 0, rest := rest }
         let (s', r) := serverStep st.srv now p
         ({ st with srv := s' }, s!"{r.name} {if s'.filter.isSome then "filter" else "nofilter"}")
       | _, _, _, _, _, _, _, _ => (st, "bad-op")
@@ -42,9 +42,9 @@ def stepC04 (st : DState) (line : String) : DState × String :=
       | some k, some c => ({ st with cli := clientInit (effectiveFilterSize k) c }, "ok")
       | _, _ => (st, "bad-op")
   | ["cli", "pkt", now, long, sid, pid, auth, hdr, typ, ts, csid, rest] =>
-      match now.toNat?, b01 long, sid.toNat?, pid.toNat?, b01 auth, b01 hdr, typ.toNat?, ts.toInt?, csid.toNat?, b01 rest with
+      match now.toNat?, b01 long, sid.toNat?, pid.toNat?, b01 auth, b01 hdr, typ.toNat?, ts.toNat?, csid.toNat?, b01 rest with
       | some now, some long, some sid, some pid, some auth, some hdr, some typ, some ts, some csid, some rest =>
-        let p : Packet := { long := long, sid := sid, pid := pid, authentic := auth, hdr := hdr, typ := typ, ts := ts, csid := csid, rest := rest }
+        let p : Packet := { long := long, sid := sid, pid := pid, authentic := auth, hdr := hdr, typ := typ, ts := BitVec.ofNat 64 ts, csid := csid, rest := rest }
         let (s', r) := clientStep st.cli now p
         ({ st with cli := s' }, s!"{r.name} {sidStr s'.cur} {sidStr s'.old}")
       | _, _, _, _, _, _, _, _, _, _ => (st, "bad-op")
